@@ -45,6 +45,17 @@ type Pair @key(fields: "a") @key(fields: "b") @entityResolver(multi: true) {
   echo: String
 }
 
+type Author {
+  id: ID!
+  reputation: Int
+}
+
+type Review @key(fields: "author { id }") {
+  author: Author
+  echo: String
+  body: String @requires(fields: "author { reputation }")
+}
+
 type Query {
   dummy: String
 }
